@@ -33,6 +33,10 @@ CHECKS = {
          "The chain-validity rules are a TLA+ predicate over abstract certificates (CertChain.tla: Valid), written from the property text. TLC enumerates exhaustively ~1900 cases: 2- and 3-certificate chains x 35 single-respect mutations (each signature, each name link, key identifiers, each date, CA flags, key usages, extended key usages, path lengths, critical extension, missing / foreign node and fabric ids, RCAC in the ICAC slot, untrusted root, swapped / repeated / leaf-as-authority, key not the CSR key, fabric already present) x a second independent mutation from a short list x reliable / last-known-good clock x purpose (bare verification, CASE against a fabric, AddNOC). For each, the harness builds the concrete Matter-TLV certificates with real P-256 keys, signs them over the implementation's own X.509 rendering, and compares the real verdict (CertVerifier, CASE chain validation, FailSafe::add_noc) with the reference. Iff: any disagreement or panic is a violation.",
          "Trusted: the reference predicate; ECDSA / P-256; the harness' certificate writer (its unmutated chains are accepted by the real verifier, which checks the writer). UpdateNOC rules are covered by C08.",
          "TLA+ reference predicate enumerated by TLC vs the real verifier on concrete certificates", "DESIGN.md section 4 C19"),
+ "C16": ("model_checking",
+         "The Matter TLV grammar is a TLA+ module (Tlv.tla): Bytes is the reference encoder, Parse the reference decoder (recursive descent, depth limit, 64-bit lengths as byte lists so 2^64-1 is representable). TLC enumerates every value tree of the universe (all tag forms, integer widths and extremes, floats, booleans, nulls, UTF-8 / octet strings with 1-, 2-, 4- and 8-byte length fields, containers of up to two children with one nesting level; the full universe in the thorough tier), checks Parse(Bytes(e)) = e, and emits every encoding with the reference verdict of every mutation (each truncation; each byte replaced by 0, 1, 0x18, 0xff, +1; a byte appended). The harness writes each tree with the real writer (byte-equal to the reference), pokes every public accessor of the real reader on every input under a panic guard and an iteration budget, and re-encodes what it decoded (byte-equal wherever the reference says well-formed).",
+         "Trusted: the reference grammar (sanity: TLC's RoundTrip invariant). Values come from a palette, not all 2^64. Derived ToTLV/FromTLV encoders of wire structures are exercised indirectly by the full-stack checks only.",
+         "TLA+ reference grammar enumerated by TLC (values + mutations with verdicts) vs the real codec", "DESIGN.md section 4 C16"),
 }
 
 NOT_YET = "check not built yet in this tree (see DESIGN.md section 7 for the build order); not claimed"
